@@ -7,10 +7,14 @@ META = {
  'functions': ['Memory::Sort<true|false> (Memory.hpp:116-147) incl. Memory::Swap', 'Array<int>::Sort (Array.hpp:271-277)',
                'HashTable::Sort + generateHash (HashTable.hpp:300-311, 543-564) via the C13 table harness',
                'StringUtils::IsLess/IsGreater as used by the key relation'],
- 'bounds': 'arrays of n elements, n concrete per query: int n <= 4 (quick) / 6 (thorough), Key2 (0..2 char units, all values) n <= 4 / 5; '
-           'all element values symbolic; ascending and descending; sub-range [1,n+1) of an n+2 array for int (guards untouched); '
-           'hash array: the table shapes of C13 (<= 3 quick / 4 thorough slots, tombstones included), then every C13 observer',
- 'outside': 'n above the stated bounds; element types other than int / Key2 / the hash item; keys longer than 2 units',
+ 'bounds': 'arrays of n elements, n concrete per query, ascending and descending. int: n <= 4 with all 2^32 element values (sorted sub-range '
+           '[1,n+1) of an n+2 array, guards untouched); thorough adds n = 5 as two queries: ordered (all values) and permutation (values in [-3,3]). '
+           'Key2 (0..2 char units, all unit values): n <= 3, thorough n = 4. Array<int>::Sort n = 3 (thorough 4). Hash array: HArray<Key2,int> '
+           'with 2 storage slots in use (thorough: 1..3), tombstone included, built through the public API, then every C13 observer '
+           '(lookup by key, by index, key<->index agreement, iteration order = strict key order)',
+ 'outside': 'int arrays of 6 and more elements; permutation for n = 5 with arbitrary 32-bit values (no verdict in 900 s); Key2 arrays above 4; '
+            'hash arrays with 4 and more slots in use (CBMC out of memory / no verdict); element types other than int / Key2 / the hash item; '
+            'keys longer than 2 units; stability (Sort is not stable and does not claim to be)',
  'assumptions': ['Key2 stand-in (q2c/standins/key2.hpp) for String keys: same comparison functions (StringUtils::IsLess/IsGreater/IsEqual)',
                  'hash-array queries: see C13 (Memory::Allocate<char> routed through a size-enumerating wrapper on the CBMC side)'],
 }
@@ -25,13 +29,17 @@ def sq(entry, n, asc, prop=3, rng=0, timeout=300, backend='sat'):
 
 def queries(tier):
     qs = []
-    ni = (1, 2, 3, 4) if tier == 'quick' else (1, 2, 3, 4, 5, 6)
-    nk = (2, 3, 4) if tier == 'quick' else (2, 3, 4, 5)
     for asc in (1, 0):
-        for n in ni: qs.append(sq('h_sort_int', n, asc))
-        for n in nk: qs.append(sq('h_sort_key', n, asc))
-        for n in ((3,) if tier == 'quick' else (3, 5)): qs.append(sq('h_array_sort', n, asc))
-    for pr in (1, 2):
-        for rg in (0, 3): qs.append(sq('h_sort_int', 5, 1, pr, rg))
+        for n in (1, 2, 3, 4): qs.append(sq('h_sort_int', n, asc))
+        for n in (2, 3): qs.append(sq('h_sort_key', n, asc))
+        qs.append(sq('h_array_sort', 3, asc))
+        if tier != 'quick':
+            # n = 5: one property per query; the permutation half only decides with the element values confined to [-3,3]
+            # (7 values for 5 elements: every order type with every tie pattern; Sort only compares)
+            qs.append(sq('h_sort_int', 5, asc, prop=1, timeout=900))
+            qs.append(sq('h_sort_int', 5, asc, prop=2, rng=3, timeout=900))
+            qs.append(sq('h_sort_key', 4, asc, prop=1, timeout=900))
+            qs.append(sq('h_sort_key', 4, asc, prop=2, timeout=900))
+            qs.append(sq('h_array_sort', 4, asc, timeout=600))
     qs += _c13.sort_queries(tier)
     return qs
